@@ -16,7 +16,8 @@ PROPS_FILES = ["props/C14.v"]
 RULE = ("one case = one scripted session of a real client class on the virtual loop: a session shape (A: connect refused "
         "once, pending 0.3 s, frames, second connect(), half a frame, send with suspending drain, EOF, reconnect, write "
         "error, reconnect; B: three refusals with 0.5/1/2 s back-off, frames, connection reset, write error after a "
-        "suspended drain, write error and EOF in the same instant, reconnect) with close() called at EVERY event-loop step position of the shape (before connect, while "
+        "suspended drain, write error and EOF in the same instant, reconnect; S, serial client only: the port opens but the "
+        "configuration drain fails after a suspension / at once / succeeds late) with close() called at EVERY event-loop step position of the shape (before connect, while "
         "the transport is pending, during a back-off, idle, mid-packet, inside a status / receive callback, during a send, "
         "right after a fault), x 4 clients x status callback that returns | raises | is slow | is slow and raises; the rest "
         "of the script (connect(), send(), frames, EOF) keeps running after close(); non-trivial = the trace contains "
@@ -37,7 +38,10 @@ SHAPE_B_SCRIPT = [["connect"], ["run", 4.2], ["frames", 1], ["run", 0.2], ["part
                   ["frames", 2], ["run", 0.2], ["wmode", "suspfail"], ["send"], ["run", 1.0], ["connect"], ["frames", 1],
                   ["run", 0.3], ["wmode", "fail"], ["send"], ["eof"], ["run", 1.5], ["frames", 1], ["run", 0.3], ["send"],
                   ["run", 0.3]]
-SHAPES = {"A": (None, None), "B": (SHAPE_B_SCRIPT, SHAPE_B_CONNS)}
+# S (serial client only): the port opens but the configuration drain() fails after a suspension / at once / succeeds late
+SHAPE_S_CONNS = [{"delay": 0.3, "drain": "suspfail"}, {"delay": 0.1, "drain": "drainfail"}, {"delay": 0.1, "drain": "susp"}]
+SHAPE_S_SCRIPT = [["connect"], ["run", 3.0], ["frames", 1], ["run", 0.5], ["eof"], ["run", 1.0]]
+SHAPES = {"A": (None, None), "B": (SHAPE_B_SCRIPT, SHAPE_B_CONNS), "S": (SHAPE_S_SCRIPT, SHAPE_S_CONNS)}
 PAIR = {"raise": "ret", "slowraise": "slow"}
 
 
@@ -59,7 +63,7 @@ def close_specs(ctx):
     shapes = ("A", "B")
     base, bmeta = [], []
     for c in clients:
-        for sh in shapes:
+        for sh in shapes + (("S",) if c == "waveshare" else ()):
             for cb in cbs:
                 base.append(_spec(c, cb, sh))
                 bmeta.append({"client": c, "cb": cb, "shape": sh, "at": None})
@@ -195,6 +199,10 @@ def judge(o, spec, twin=None):
                                                            f"{cl['returned']:.2f}): at {[round(t, 2) for t, _ in o['rcb'][cl['rcb_at_return']:]]}"}
         ws = o["writers"]
         cur = o["cur_wid"]
+        # guard of C14_link_shut_*: a serial port whose configuration drain() raised inside _connect_impl is left open by
+        # the library (reported finding `serial-config-drain-leak`); `strict_link` in the spec switches the guard off
+        exempt = set() if spec.get("strict_link") else {w[1] for w in (o.get("wfaults") or []) if w[2] == "drain" and w[3] != 1}
+        ws = [dict(w, closed=True) if w["wid"] in exempt else w for w in ws]
         if cur >= 0 and not ws[cur]["closed"]:
             return {"key": "close:link-open", "what": f"{c}: the current connection (writer {cur}) is still open after close()"}
         if ac is not None:
